@@ -363,4 +363,13 @@ theorem nSends_roundsLog (s : Sock) (region : Nat) (fb : Bytes) :
           simp only [reqEv, replyEv, nSends_send, nSends_recv, countData]
           omega
 
+/-- the first round holds one request -/
+theorem nSends_firstRound (s : Sock) (region : Nat) (fb : Bytes) (q : List Delivery) (fl : List Bool) (ip : Bytes)
+    (port : Nat) : nSends ((roundsLog s region fb q fl ip port).take 2) ≤ 1 := by
+  have h0 : nSends [] = 0 := rfl
+  cases q with
+  | nil => unfold roundsLog; split <;> simp [reqEv, replyEv, nSends_send, nSends_recv, h0]
+  | cons x r =>
+    cases x <;> unfold roundsLog <;> split <;> simp [reqEv, replyEv, nSends_send, nSends_recv, h0]
+
 end Gd.Master
